@@ -24,7 +24,6 @@ def load(R):
     # built into the OrdSet model, proved at every append), I3 0 <= usage <= budget, I4 sizes non-negative
     R.spec("INV", ["c"], "c.memory_usage == dsum(c.cache, 'obj_size') and dnonneg(c.cache, 'obj_size') "
                          "and 0 <= c.memory_usage and c.memory_usage <= c.memory_cache_bytes "
-                         "and len(c.cache) == len(c.lru_deque) "
                          "and forall(str, lambda k: (k in c.cache) == (k in c.lru_deque))")
     R.spec("KEY", ["m"], "m.invocation_metadata.fn_reference_with_args.fn_reference.qualified_name + '/' + m.invocation_metadata.fn_reference_with_args.arg_hash")
     R.spec("FKEY", ["f", "h"], "f.qualified_name + '/' + h")
@@ -36,14 +35,17 @@ def load(R):
     # k is the most recently used resident
     R.spec("MOST_RECENT", ["c", "key"], "forall(str, lambda k: implies(k in c.cache and k != key, stamp(c.lru_deque, k) < stamp(c.lru_deque, key)))")
 
-    R.spec("isinst_frame", ["x"], "isinstance(x, pd.DataFrame) or isinstance(x, pd.Series)")
     MC = TEnt("MemoryCache")
     M = TObj("nn:Memento")
     SB = "storage_base:MemoryCache."
 
     R.contract(SB + "_estimate_object_size", assumed=True, types={"obj": TObj()}, returns=TInt, ensures=["result >= 0"],
                notes="assumed: the size estimate is a non-negative int (sys.getsizeof / pandas memory_usage)")
-    R.obj_method("copy", types={"self": TObj()}, returns=TObj(), ensures=["result is not None"])
+    R.spec("isinst_frame", ["x"], "isinstance(x, pd.DataFrame) or isinstance(x, pd.Series)")
+    # abstract value of an object: copies and serialisation round trips preserve it
+    R.uf("absval", [TObj()], TObj())
+    R.spec("EQV", ["a", "b"], "absval(a) == absval(b)")
+    R.obj_method("copy", types={"self": TObj()}, returns=TObj(), ensures=["result is not None", "EQV(result, self)", "isinst_frame(result)"])
 
     R.contract(SB + "__init__", prop="C06", types={"self": MC, "memory_cache_mb": TReal},
                requires=["memory_cache_mb >= 0"],
@@ -78,9 +80,11 @@ def load(R):
                    "implies(KEY(memento) in self.cache, MOST_RECENT(self, KEY(memento)) or SAME_AT(self, KEY(memento)))",
                    # C05 (cache/store coherence): whatever is resident under the key after a put is what was put -- no stale resident
                    "[C05] implies(KEY(memento) in self.cache, same(self.cache[KEY(memento)].memento, memento) and self.cache[KEY(memento)].has_value == has_result "
-                   "and implies(has_result and not isinst_frame(result), same(self.cache[KEY(memento)].value, result)))",
+                   "and implies(has_result, EQV(self.cache[KEY(memento)].value, result) and implies(not isinst_frame(result), same(self.cache[KEY(memento)].value, result))))",
                    # C05: a weak reference kept under the key refers to the value just put (never to an older one)
-                   "[C05] implies(has_result and KEY(memento) in self.refs and not isinst_frame(result), same(self.refs[KEY(memento)], result))",
+                   "[C05] implies(has_result and KEY(memento) in self.refs, EQV(self.refs[KEY(memento)], result))",
+                   "[C05] implies(not has_result and result is None, (KEY(memento) in self.refs) == old(KEY(memento) in self.refs) and same(self.refs[KEY(memento)], old(self.refs[KEY(memento)])))",
+                   "[C05] forall(str, lambda k: implies(k != KEY(memento), (k in self.refs) == old(k in self.refs) and same(self.refs[k], old(self.refs[k]))))",
                    # other keys: survivors are untouched (content and recency)
                    "forall(str, lambda k: implies(k != KEY(memento) and k in self.cache, old(k in self.cache) and self.cache[k] == old(self.cache[k]) and stamp(self.lru_deque, k) == old(stamp(self.lru_deque, k))))",
                    # LRU: whatever was dropped is less recent than whatever was kept
@@ -123,7 +127,7 @@ def load(R):
                         "implies(old(KEY(memento) in self.cache), old(self.cache[KEY(memento)].has_value) and same(result, old(self.cache[KEY(memento)].value)) "
                         "and MOST_RECENT(self, KEY(memento)) and OTHERS_RECENCY_SAME(self, KEY(memento)))",
                         "implies(not old(KEY(memento) in self.cache), UNCHANGED(self) and old(KEY(memento) in self.refs) and same(result, old(self.refs[KEY(memento)])))"],
-               raises={"KeyError": ["UNCHANGED(self)", "not (old(KEY(memento) in self.cache) and old(self.cache[KEY(memento)].has_value))",
+               raises={"KeyError": ["INV(self)", "UNCHANGED(self)", "forall(str, lambda k: (k in self.refs) == old(k in self.refs) and same(self.refs[k], old(self.refs[k])))", "not (old(KEY(memento) in self.cache) and old(self.cache[KEY(memento)].has_value))",
                                     "implies(not old(KEY(memento) in self.cache), not old(KEY(memento) in self.refs))"]},
                modifies=["self.lru_deque"])
 
